@@ -365,6 +365,10 @@ func genAuthPlan(r *rand.Rand, tier, focus string) *vfPlan {
 				switch last.Op {
 				case "totp", "vipotp", "pushpoll", "u2fsignresp", "webauthn_finish", "bootstrapotp":
 					last.L = append(last.L, "precookie:"+pick(r, vfSessNames))
+					if chance(r, 0.6) {
+						// ... and whatever cookie came back is used for a certificate
+						add(vfStep{Op: "certgen", Sess: last.Sess, User: "@jar", A: pick(r, []string{"ssh", "x509"}), B: pick(r, vfUserKeyNames)})
+					}
 				}
 			}
 		case x < 75:
